@@ -99,6 +99,8 @@ func runC06(w *World) *Result {
 	} else {
 		r.Bad("R-C06-redecl", "context:facts", "-", err.Error())
 	}
+	r.Rule("R-C06-pred", "the scalar predicates of the value type (which the slot rule accepts as guards) are false for every slice type", 3)
+	TypePredicateRule(w, r, "R-C06-pred")
 	r.Rule("R-C06-single", "every element of a value list is tested for multiple results before the list can end", 1)
 	c06Single(w, r)
 	c06SwitchTag(w, pf, r)
